@@ -556,3 +556,428 @@ Section Ranked.
       apply andb_prop in E as [E1 _]. apply str_eqb_eq in E1. subst r. unfold k0. lia.
   Qed.
 End Ranked.
+
+(* ================================================================ operations, bodies, transactions *)
+Section Transactions.
+  Variable sch : schema.
+  Variable rk : name -> nat.
+  Hypothesis Hroots : forall x, root_of sch (root_of sch x) = root_of sch x.
+  Hypothesis Hrootnc : forall x, is_child sch (root_of sch x) = false.
+  Hypothesis Hchildren : forall r0 d, In d (children_of sch r0) -> root_of sch (sd_name d) = r0.
+  Hypothesis Hrank : forall s' rs f, In (CFkCascade rs f CascDelete) (cons_of sch s') ->
+                                     (rk (root_of sch s') < rk (root_of sch rs))%nat.
+
+  (* every successful operation appends exactly its expected multiset *)
+  Lemma run_op_events fuel oc st evs o st' evs' :
+    run_op sch fuel oc (st, evs) o = Ok (st', evs') ->
+    exists new, evs' = evs ++ new /\ forall e, count_ev e new = expected_op sch st st' o e.
+  Proof.
+    destruct o as [s i sys fv sv|s i fv sv ch|s i|s i lf ts|s i lf ts|]; cbn [run_op]; intros H.
+    - apply op_create_events in H. eexists. split; [exact H | reflexivity].
+    - apply op_update_events in H. eexists. split; [exact H | reflexivity].
+    - destruct (delete_step sch oc rk Hroots Hrootnc Hchildren Hrank fuel _ _ _ _ H) as [new [E [_ [C _]]]].
+      exists new. split; [exact E | exact C].
+    - cbn [fst snd] in H. destruct (op_add_links sch st s i lf ts); cbn [bind] in H; [|discriminate]. inversion H; subst.
+      exists []. rewrite app_nil_r. split; reflexivity.
+    - cbn [fst snd] in H. destruct (op_remove_links sch st s i lf ts); cbn [bind] in H; [|discriminate]. inversion H; subst.
+      exists []. rewrite app_nil_r. split; reflexivity.
+    - discriminate.
+  Qed.
+
+  Lemma run_ops_events fuel oc : forall ops st evs rs st' evs',
+    run_ops sch fuel oc (st, evs) ops = (rs, Ok (st', evs')) ->
+    exists new, evs' = evs ++ new /\
+                forall e, count_ev e new = expected_events sch (op_trace sch fuel oc (st, evs) ops) e.
+  Proof.
+    induction ops as [|o ops IH]; intros st evs rs st' evs' H; cbn [run_ops op_trace] in *.
+    - inversion H; subst. exists []. rewrite app_nil_r. split; reflexivity.
+    - destruct (run_op sch fuel oc (st, evs) o) as [[st1 evs1]|k] eqn:Ho; [|inversion H].
+      destruct (run_ops sch fuel oc (st1, evs1) ops) as [rs1 fin1] eqn:Hr. inversion H; subst. clear H.
+      destruct (run_op_events _ _ _ _ _ _ _ Ho) as [n1 [-> C1]].
+      destruct (IH _ _ _ _ _ Hr) as [n2 [-> C2]].
+      exists (n1 ++ n2). split; [rewrite app_assoc; reflexivity|].
+      intros e. rewrite count_ev_app, C1, C2. cbn [expected_events fold_right fst]. reflexivity.
+  Qed.
+
+  Lemma events_exactly_once_lemma fuel st t rs st' evs :
+    run_tx sch fuel st t = (rs, true, st', evs) ->
+    forall e, count_ev e evs = expected_events sch (tx_trace sch fuel st t) e.
+  Proof.
+    intros H. apply run_tx_commit_lemma in H as [_ H]. unfold tx_trace.
+    destruct (run_ops sch fuel _ (st, []) (tx_ops t)) as [rs0 fin] eqn:Hr. cbn [snd] in H. subst fin.
+    destruct (run_ops_events _ _ _ _ _ _ _ _ Hr) as [new [E C]]. cbn [app] in E. subst new. exact C.
+  Qed.
+
+  (* ---- what a positive expectation means ---- *)
+  Lemma expected_op_in st st' o e :
+    (0 < expected_op sch st st' o e)%nat <->
+    match o with
+    | OCreate s i _ _ _ => In e (ev_cu sch s Created i)
+    | OUpdate s i _ _ _ => In e (ev_cu sch (update_target sch st s i) Updated i)
+    | ODelete _ _ => ev_change e = Deleted /\ vanished st st' (root_of sch (ev_store e)) (ev_id e) = true /\
+                     In e (del_events sch st (root_of sch (ev_store e)) (ev_id e))
+    | _ => False
+    end.
+  Proof.
+    destruct o; cbn [expected_op]; try apply count_ev_pos; try (split; [lia | contradiction]).
+    unfold expected_delete. destruct (ev_change e); try (split; [lia | intros [H _]; discriminate]).
+    destruct (vanished st st' _ _).
+    - rewrite count_ev_pos. split; [intros H; repeat split; exact H | intros [_ [_ H]]; exact H].
+    - split; [lia | intros [_ [H _]]; discriminate].
+  Qed.
+
+  Lemma expected_events_pos tr e :
+    (0 < expected_events sch tr e)%nat -> exists st o st', In (st, o, st') tr /\ (0 < expected_op sch st st' o e)%nat.
+  Proof.
+    induction tr as [|[[st o] st'] tr IH]; cbn [expected_events fold_right]; [lia|]. intros H.
+    destruct (expected_op sch st st' o e) eqn:E.
+    - destruct (IH H) as [a [b [c [Hin Hp]]]]. exists a, b, c. split; [right; exact Hin | exact Hp].
+    - exists st, o, st'. split; [left; reflexivity | lia].
+  Qed.
+
+  Lemma op_trace_in fuel oc : forall ops stev st o st',
+    In (st, o, st') (op_trace sch fuel oc stev ops) ->
+    In o ops /\ exists evs evs', run_op sch fuel oc (st, evs) o = Ok (st', evs').
+  Proof.
+    induction ops as [|o0 ops IH]; intros stev st o st' H; cbn [op_trace] in H; [contradiction|].
+    destruct (run_op sch fuel oc stev o0) as [stev1|k] eqn:Ho; [|contradiction].
+    destruct H as [H|H].
+    - inversion H; subst. split; [left; reflexivity|]. exists (snd stev), (snd stev1).
+      destruct stev, stev1. exact Ho.
+    - destruct (IH _ _ _ _ H) as [A B]. split; [right; exact A | exact B].
+  Qed.
+
+  (* every delivered event stems from a successful operation of that transaction *)
+  Lemma events_only_from_ops_lemma fuel st t rs st' evs e :
+    run_tx sch fuel st t = (rs, true, st', evs) -> In e evs ->
+    exists st0 o st1, In o (tx_ops t) /\ In (st0, o, st1) (tx_trace sch fuel st t) /\
+                      (exists q q', run_op sch fuel (mkOctx (tx_sys t) (tx_vetoes t)) (st0, q) o = Ok (st1, q')) /\
+                      (0 < expected_op sch st0 st1 o e)%nat.
+  Proof.
+    intros H Hin. pose proof (events_exactly_once_lemma _ _ _ _ _ _ H e) as C.
+    apply count_ev_pos in Hin. rewrite C in Hin.
+    destruct (expected_events_pos _ _ Hin) as [st0 [o [st1 [Ht Hp]]]].
+    unfold tx_trace in Ht. destruct (op_trace_in _ _ _ _ _ _ _ Ht) as [Ho Hrun].
+    exists st0, o, st1. repeat split; assumption.
+  Qed.
+
+  (* ---- child and parent stores ---- *)
+  Lemma update_in_present oc st evs s i fv sv ch st' evs' :
+    update_in sch oc (st, evs) s i fv sv ch = Ok (st', evs') -> present sch st s i = true.
+  Proof.
+    unfold update_in. destruct (negb (nonempty i)); [discriminate|]. destruct (negb (loadable sch st s i)); [discriminate|].
+    destruct (present sch st s i); [reflexivity | discriminate].
+  Qed.
+
+  Lemma ev_cu_in s c i e : In e (ev_cu sch s c i) ->
+    e = mkEvent s c i false \/ (is_child sch s = true /\ e = mkEvent (root_of sch s) c i true).
+  Proof.
+    unfold ev_cu. destruct (is_child sch s); cbn; intros [H|H]; try contradiction; subst; auto.
+    destruct H as [H|[]]. subst. auto.
+  Qed.
+
+  (* an event on a plain (not extended) child store: the entity has that store's data, or is being
+     created through that store - a plain parent entity never produces one *)
+  Lemma plain_child_event_needs_data fuel oc st evs o st' new e :
+    run_op sch fuel oc (st, evs) o = Ok (st', evs ++ new) -> In e new ->
+    is_child sch (ev_store e) = true -> is_ext sch (ev_store e) = false ->
+    (exists sys fv sv, o = OCreate (ev_store e) (ev_id e) sys fv sv) \/ present sch st (ev_store e) (ev_id e) = true.
+  Proof.
+    intros H Hin Hc Hx.
+    destruct (run_op_events _ _ _ _ _ _ _ H) as [new' [E C]]. apply app_inv_head in E. subst new'.
+    apply count_ev_pos in Hin. rewrite C in Hin. apply expected_op_in in Hin.
+    destruct o as [s i sys fv sv|s i fv sv ch|s i|s i lf ts|s i lf ts|]; try contradiction.
+    - apply ev_cu_in in Hin as [->|[_ ->]]; cbn [ev_store ev_id] in *.
+      + left. exists sys, fv, sv. reflexivity.
+      + rewrite Hrootnc in Hc. discriminate.
+    - right. apply ev_cu_in in Hin as [->|[_ ->]]; cbn [ev_store ev_id] in *.
+      + cbn [run_op] in H. unfold op_update in H. unfold update_target in *.
+        destruct (find_store sch s); [|discriminate]. destruct (is_child sch s) eqn:Ecs.
+        * eapply update_in_present; eauto.
+        * cbn [fst] in H. destruct (find (fun d => present sch st (sd_name d) i) (children_of sch s)) as [d|] eqn:Ef.
+          -- eapply update_in_present; eauto.
+          -- congruence.
+      + rewrite Hrootnc in Hc. discriminate.
+    - right. destruct Hin as [_ [_ Hin]]. destruct Hin as [Heq|Hin].
+      + apply (f_equal ev_store) in Heq. cbn [ev_store] in Heq. rewrite <- Heq, Hrootnc in Hc. discriminate.
+      + apply in_map_iff in Hin as [c [Heq Hfl]]. apply (f_equal ev_store) in Heq. cbn [ev_store] in Heq. subst c.
+        unfold flows_of in Hfl. apply in_map_iff in Hfl as [d [Hn Hd]]. apply filter_In in Hd as [Hd Hl].
+        rewrite Hn in Hl. unfold loadable in Hl. rewrite Hx in Hl. cbn [andb] in Hl. rewrite orb_false_r in Hl. exact Hl.
+  Qed.
+End Transactions.
+
+(* ================================================================ the boolean schema check *)
+Lemma find_store_some_in sch x d : find_store sch x = Some d -> In d sch /\ sd_name d = x.
+Proof.
+  induction sch as [|d0 sch IH]; cbn; [discriminate|].
+  destruct (str_eqb (sd_name d0) x) eqn:E.
+  - intros H; inversion H; subst. apply str_eqb_eq in E. split; [left; reflexivity | exact E].
+  - intros H. destruct (IH H) as [A B]. split; [right; exact A | exact B].
+Qed.
+
+Lemma names_nodup_find sch d : names_nodup (map sd_name sch) = true -> In d sch -> find_store sch (sd_name d) = Some d.
+Proof.
+  induction sch as [|d0 sch IH]; cbn; intros Hn Hin; [contradiction|].
+  apply andb_prop in Hn as [Hn1 Hn2]. destruct Hin as [->|Hin].
+  - rewrite str_eqb_refl. reflexivity.
+  - destruct (str_eqb (sd_name d0) (sd_name d)) eqn:E; [|apply IH; assumption].
+    exfalso. apply negb_true_iff in Hn1.
+    assert (existsb (str_eqb (sd_name d0)) (map sd_name sch) = true) as Hm.
+    { apply existsb_exists. exists (sd_name d). split; [apply in_map; exact Hin | exact E]. }
+    congruence.
+Qed.
+
+Theorem wf_events_b_sound sch rkl : wf_events_b sch rkl = true ->
+  (forall x, root_of sch (root_of sch x) = root_of sch x) /\
+  (forall x, is_child sch (root_of sch x) = false) /\
+  (forall r0 d, In d (children_of sch r0) -> root_of sch (sd_name d) = r0) /\
+  (forall s' rs f, In (CFkCascade rs f CascDelete) (cons_of sch s') ->
+                   (rank_of rkl (root_of sch s') < rank_of rkl (root_of sch rs))%nat) /\
+  (forall r0 d, In d (children_of sch r0) -> is_child sch (sd_name d) = true).
+Proof.
+  unfold wf_events_b. intros H. apply andb_prop in H as [H H3]. apply andb_prop in H as [H1 H2].
+  assert (Hcase : forall x, (root_of sch x = x /\ is_child sch x = false) \/
+                            (exists p, root_of sch x = p /\ is_child sch p = false)).
+  { intros x. unfold root_of, is_child. destruct (find_store sch x) as [d|] eqn:Ef; [|left; split; reflexivity].
+    destruct (sd_parent d) as [p|] eqn:Ep; [|left; split; reflexivity].
+    right. exists p. split; [reflexivity|]. destruct (find_store_some_in _ _ _ Ef) as [Hin _].
+    rewrite forallb_forall in H2. specialize (H2 d Hin). rewrite Ep in H2. apply negb_true_iff in H2. exact H2. }
+  assert (Hnc : forall p, is_child sch p = false -> root_of sch p = p).
+  { intros p Hp. unfold is_child in Hp. unfold root_of. destruct (find_store sch p) as [dp|]; [|reflexivity].
+    destruct (sd_parent dp); [discriminate | reflexivity]. }
+  split; [|split; [|split; [|split]]].
+  - intros x. destruct (Hcase x) as [[Hx _]|[p [Hx Hp]]]; rewrite Hx; [exact Hx | apply Hnc; exact Hp].
+  - intros x. destruct (Hcase x) as [[Hx Hc]|[p [Hx Hp]]]; rewrite Hx; assumption.
+  - intros r0 d Hin. unfold children_of in Hin. apply filter_In in Hin as [Hin Hp].
+    destruct (sd_parent d) as [p|] eqn:Ep; [|discriminate]. apply str_eqb_eq in Hp. subst p.
+    unfold root_of. rewrite (names_nodup_find _ _ H1 Hin), Ep. reflexivity.
+  - intros s' rs f Hin. unfold cons_of in Hin. destruct (find_store sch s') as [d|] eqn:Ef; [|contradiction].
+    destruct (find_store_some_in _ _ _ Ef) as [Hd Hn]. rewrite forallb_forall in H3. specialize (H3 d Hd).
+    rewrite forallb_forall in H3. specialize (H3 _ Hin). cbn in H3. rewrite Hn in H3. apply Nat.ltb_lt in H3. exact H3.
+  - intros r0 d Hin. unfold children_of in Hin. apply filter_In in Hin as [Hin Hp].
+    destruct (sd_parent d) as [p|] eqn:Ep; [|discriminate].
+    unfold is_child. rewrite (names_nodup_find _ _ H1 Hin), Ep. reflexivity.
+Qed.
+
+(* ================================================================ listeners *)
+Lemma adapter_fires_spec t c : adapter_fires t c = change_eqb (et_change t) c.
+Proof. destruct t, c; reflexivity. Qed.
+
+Lemma invocations_single l t c :
+  style_filters (l_style l) = true -> l_types l = [t] ->
+  invocations l c = if change_eqb (et_change t) c then [et_is_async t] else [].
+Proof.
+  intros Hs Ht. unfold invocations. rewrite Hs, Ht. cbn [filter]. rewrite adapter_fires_spec.
+  destruct (change_eqb (et_change t) c); reflexivity.
+Qed.
+
+(* a listener registered for one change type receives exactly the events of that type on its store,
+   each once, all in the mode (sync / async) it asked for *)
+Lemma delivered_to_single l t evs :
+  style_filters (l_style l) = true -> l_types l = [t] ->
+  delivered_to l evs =
+  map (fun e => (e, et_is_async t))
+      (filter (fun e => str_eqb (ev_store e) (l_store l) && change_eqb (et_change t) (ev_change e)) evs).
+Proof.
+  intros Hs Ht. unfold delivered_to. induction evs as [|e evs IH]; [reflexivity|]. cbn [flat_map filter].
+  rewrite IH, (invocations_single l t _ Hs Ht). destruct (str_eqb (ev_store e) (l_store l)); [|reflexivity].
+  cbn [andb]. destruct (change_eqb (et_change t) (ev_change e)); reflexivity.
+Qed.
+
+(* a constraint sees every event of its store, synchronously *)
+Lemma delivered_to_constraint l evs :
+  style_filters (l_style l) = false ->
+  delivered_to l evs = map (fun e => (e, false)) (filter (fun e => str_eqb (ev_store e) (l_store l)) evs).
+Proof.
+  intros Hs. unfold delivered_to, invocations. rewrite Hs. induction evs as [|e evs IH]; [reflexivity|]. cbn [flat_map filter].
+  rewrite IH. destruct (str_eqb (ev_store e) (l_store l)); reflexivity.
+Qed.
+
+Lemma count_ev_filter e p l : count_ev e (filter p l) = if p e then count_ev e l else 0%nat.
+Proof.
+  induction l as [|x l IH]; [destruct (p e); reflexivity|]. cbn [filter]. destruct (p x) eqn:Px.
+  - rewrite !count_ev_cons, IH. destruct (event_eqb e x) eqn:E.
+    + apply event_eqb_eq in E. subst x. rewrite Px. reflexivity.
+    + destruct (p e); reflexivity.
+  - rewrite IH, count_ev_cons. destruct (event_eqb e x) eqn:E.
+    + apply event_eqb_eq in E. subst x. rewrite Px. reflexivity.
+    + reflexivity.
+Qed.
+
+Lemma listener_count_lemma l t evs e :
+  style_filters (l_style l) = true -> l_types l = [t] ->
+  count_ev e (map fst (delivered_to l evs)) =
+  if str_eqb (ev_store e) (l_store l) && change_eqb (et_change t) (ev_change e) then count_ev e evs else 0%nat.
+Proof.
+  intros Hs Ht. rewrite (delivered_to_single l t evs Hs Ht), map_map. cbn [fst]. rewrite map_id. apply count_ev_filter.
+Qed.
+
+Lemma constraint_count_lemma l evs e :
+  style_filters (l_style l) = false ->
+  count_ev e (map fst (delivered_to l evs)) = if str_eqb (ev_store e) (l_store l) then count_ev e evs else 0%nat.
+Proof.
+  intros Hs. rewrite (delivered_to_constraint l evs Hs), map_map. cbn [fst]. rewrite map_id. apply count_ev_filter.
+Qed.
+
+(* ================================================================ the state a listener receives *)
+Lemma run_ops_v_views sch fuel oc : forall ops stev acc rs stev' sevs,
+  run_ops_v sch fuel oc stev ops acc = (rs, Ok (stev', sevs)) ->
+  exists added, sevs = acc ++ added /\
+    Forall (fun se => exists st0 o st1, In (st0, o, st1) (op_trace sch fuel oc stev ops) /\ se = attach sch st0 st1 (se_ev se)) added.
+Proof.
+  induction ops as [|o ops IH]; intros stev acc rs stev' sevs H; cbn [run_ops_v op_trace] in *.
+  - inversion H; subst. exists []. rewrite app_nil_r. split; [reflexivity | constructor].
+  - destruct (run_op sch fuel oc stev o) as [stev1|k] eqn:Ho; [|inversion H].
+    destruct (run_ops_v sch fuel oc stev1 ops _) as [rs1 fin1] eqn:Hr. inversion H; subst. clear H.
+    destruct (IH _ _ _ _ _ Hr) as [added [-> Hall]].
+    exists (map (attach sch (fst stev) (fst stev1)) (skipn (length (snd stev)) (snd stev1)) ++ added).
+    split; [rewrite app_assoc; reflexivity|]. apply Forall_app. split.
+    + apply Forall_forall. intros se Hin. apply in_map_iff in Hin as [e [<- _]].
+      exists (fst stev), o, (fst stev1). split; [left; reflexivity | reflexivity].
+    + eapply Forall_impl; [|exact Hall]. intros se [st0 [o0 [st1 [Hin Hse]]]].
+      exists st0, o0, st1. split; [right; exact Hin | exact Hse].
+Qed.
+
+(* every delivered entity state is the state right after the operation that caused the event
+   (create / update: FinalState) or right before it (delete: InitialState = last state) *)
+Lemma delivered_state_lemma sch fuel st t se :
+  In se (to_events (run_tx_v sch fuel st t)) ->
+  exists st0 o st1, In (st0, o, st1) (tx_trace sch fuel st t) /\
+    se_view se = ent_view sch (match ev_change (se_ev se) with Deleted => st0 | _ => st1 end)
+                          (ev_store (se_ev se)) (ev_id (se_ev se)).
+Proof.
+  unfold run_tx_v, tx_trace.
+  destruct (run_ops_v sch fuel _ (st, []) (tx_ops t) []) as [rs fin] eqn:Hr.
+  destruct fin as [[[st' evs] sevs]|k]; [|cbn; contradiction].
+  destruct (tx_precommit_fails t); cbn [to_events]; [contradiction|]. intros Hin.
+  destruct (run_ops_v_views _ _ _ _ _ _ _ _ _ Hr) as [added [E Hall]]. cbn [app] in E. subst added.
+  rewrite Forall_forall in Hall. destruct (Hall se Hin) as [st0 [o [st1 [Ht Hse]]]].
+  exists st0, o, st1. split; [exact Ht|]. rewrite Hse at 1. reflexivity.
+Qed.
+
+(* ================================================================ statements for well-formed schemas *)
+Section WellFormed.
+  Variable sch : schema.
+  Variable rkl : list (name * nat).
+  Hypothesis Hwf : wf_events_b sch rkl = true.
+
+  Let H1 := proj1 (wf_events_b_sound sch rkl Hwf).
+  Let H2 := proj1 (proj2 (wf_events_b_sound sch rkl Hwf)).
+  Let H3 := proj1 (proj2 (proj2 (wf_events_b_sound sch rkl Hwf))).
+  Let H4 := proj1 (proj2 (proj2 (proj2 (wf_events_b_sound sch rkl Hwf)))).
+  Let H5 := proj2 (proj2 (proj2 (proj2 (wf_events_b_sound sch rkl Hwf)))).
+
+  Lemma events_exactly_once_wf fuel st t rs st' evs :
+    run_tx sch fuel st t = (rs, true, st', evs) ->
+    forall e, count_ev e evs = expected_events sch (tx_trace sch fuel st t) e.
+  Proof. exact (events_exactly_once_lemma sch (rank_of rkl) H1 H2 H3 H4 fuel st t rs st' evs). Qed.
+
+  (* as a multiset: a list is a permutation of the delivered events iff it has the expected counts *)
+  Lemma events_exactly_once_perm_wf fuel st t rs st' evs l :
+    run_tx sch fuel st t = (rs, true, st', evs) ->
+    (Permutation evs l <-> forall e, count_ev e l = expected_events sch (tx_trace sch fuel st t) e).
+  Proof.
+    intros H. pose proof (events_exactly_once_wf _ _ _ _ _ _ H) as C. rewrite <- count_ev_permutation. split.
+    - intros Hp e. rewrite <- Hp. apply C.
+    - intros Hl e. rewrite Hl. apply C.
+  Qed.
+
+  Lemma events_only_from_ops_wf fuel st t rs st' evs e :
+    run_tx sch fuel st t = (rs, true, st', evs) -> In e evs ->
+    exists st0 o st1, In o (tx_ops t) /\ In (st0, o, st1) (tx_trace sch fuel st t) /\
+                      (exists q q', run_op sch fuel (mkOctx (tx_sys t) (tx_vetoes t)) (st0, q) o = Ok (st1, q')) /\
+                      (0 < expected_op sch st0 st1 o e)%nat.
+  Proof. exact (events_only_from_ops_lemma sch (rank_of rkl) H1 H2 H3 H4 fuel st t rs st' evs e). Qed.
+
+  Lemma run_op_events_wf fuel oc st evs o st' evs' :
+    run_op sch fuel oc (st, evs) o = Ok (st', evs') ->
+    exists new, evs' = evs ++ new /\ forall e, count_ev e new = expected_op sch st st' o e.
+  Proof. exact (run_op_events sch (rank_of rkl) H1 H2 H3 H4 fuel oc st evs o st' evs'). Qed.
+
+  Lemma no_child_event_for_plain_parent_wf fuel oc st evs o st' new c i :
+    is_child sch c = true -> is_ext sch c = false ->
+    present sch st c i = false -> (forall sys fv sv, o <> OCreate c i sys fv sv) ->
+    run_op sch fuel oc (st, evs) o = Ok (st', evs ++ new) ->
+    forall e, In e new -> ~ (ev_store e = c /\ ev_id e = i).
+  Proof.
+    intros Hc Hx Hp Ho H e Hin [Es Ei]. subst c i.
+    destruct (plain_child_event_needs_data sch (rank_of rkl) H1 H2 H3 H4 fuel oc st evs o st' new e H Hin Hc Hx)
+      as [[sys [fv [sv Heq]]]|Hpr]; [exact (Ho _ _ _ Heq) | congruence].
+  Qed.
+
+  (* the root event of a removal is there exactly once *)
+  Lemma del_events_root_count st r i :
+    root_of sch r = r ->
+    count_ev (mkEvent r Deleted i (match flows_of sch st r i with [] => false | _ => true end)) (del_events sch st r i) = 1%nat.
+  Proof.
+    intros Hr. unfold del_events. rewrite count_ev_cons, event_eqb_refl.
+    rewrite count_ev_zero; [reflexivity|]. intros Hin. apply in_map_iff in Hin as [c [Heq Hc]].
+    inversion Heq; subst c. unfold flows_of in Hc. apply in_map_iff in Hc as [d [Hn Hd]]. apply filter_In in Hd as [Hd _].
+    pose proof (H5 r d Hd) as Hcc. rewrite Hn in Hcc. pose proof (H2 r) as Hnc. rewrite Hr in Hnc. congruence.
+  Qed.
+
+  (* (d) a delete - with every cascade it triggers - notifies the root store of EVERY entity that
+     disappeared, exactly once, and of no entity that is still there *)
+  Lemma cascade_delete_events_wf fuel oc st evs s x st' evs' :
+    run_op sch fuel oc (st, evs) (ODelete s x) = Ok (st', evs') ->
+    exists new, evs' = evs ++ new /\
+      (forall r i, root_of sch r = r -> vanished st st' r i = true ->
+         count_ev (mkEvent r Deleted i (match flows_of sch st r i with [] => false | _ => true end)) new = 1%nat) /\
+      (forall e, In e new -> ev_change e = Deleted /\ vanished st st' (root_of sch (ev_store e)) (ev_id e) = true).
+  Proof.
+    intros H. destruct (run_op_events_wf _ _ _ _ _ _ _ H) as [new [E C]]. exists new. split; [exact E|]. split.
+    - intros r i Hr Hv. rewrite C. cbn [expected_op]. unfold expected_delete. cbn [ev_change ev_store ev_id].
+      rewrite Hr, Hv. apply del_events_root_count. exact Hr.
+    - intros e Hin. apply count_ev_pos in Hin. rewrite C in Hin.
+      apply (expected_op_in sch st st' (ODelete s x) e) in Hin. destruct Hin as [A [B _]]. split; assumption.
+  Qed.
+End WellFormed.
+
+(* ---- parent events (every schema) ---- *)
+Lemma parent_event_create_lemma sch oc st evs s i sys fv sv st' evs' :
+  is_child sch s = true ->
+  op_create sch oc (st, evs) s i sys fv sv = Ok (st', evs') ->
+  evs' = evs ++ [mkEvent (root_of sch s) Created i true; mkEvent s Created i false].
+Proof. intros Hc H. apply op_create_events in H. unfold ev_cu in H. rewrite Hc in H. exact H. Qed.
+
+Lemma parent_event_update_lemma sch oc st evs s i fv sv ch st' evs' :
+  is_child sch (update_target sch st s i) = true ->
+  op_update sch oc (st, evs) s i fv sv ch = Ok (st', evs') ->
+  evs' = evs ++ [mkEvent (root_of sch (update_target sch st s i)) Updated i true;
+                 mkEvent (update_target sch st s i) Updated i false].
+Proof. intros Hc H. apply op_update_events in H. unfold ev_cu in H. rewrite Hc in H. exact H. Qed.
+
+Lemma root_change_single_event_lemma sch oc st evs s i sys fv sv st' evs' :
+  is_child sch s = false ->
+  op_create sch oc (st, evs) s i sys fv sv = Ok (st', evs') -> evs' = evs ++ [mkEvent s Created i false].
+Proof. intros Hc H. apply op_create_events in H. unfold ev_cu in H. rewrite Hc in H. exact H. Qed.
+
+(* ---- listener x transaction: the number of invocations of a listener for an event ---- *)
+Lemma listener_invoked_exactly_once_lemma sch rkl fuel st t rs st' evs l ty e :
+  wf_events_b sch rkl = true ->
+  run_tx sch fuel st t = (rs, true, st', evs) ->
+  style_filters (l_style l) = true -> l_types l = [ty] ->
+  count_ev e (map fst (delivered_to l evs)) =
+  (if str_eqb (ev_store e) (l_store l) && change_eqb (et_change ty) (ev_change e)
+   then expected_events sch (tx_trace sch fuel st t) e else 0%nat) /\
+  Forall (fun p => snd p = et_is_async ty) (delivered_to l evs).
+Proof.
+  intros Hwf H Hs Ht. split.
+  - rewrite (listener_count_lemma l ty evs e Hs Ht), (events_exactly_once_wf sch rkl Hwf _ _ _ _ _ _ H). reflexivity.
+  - rewrite (delivered_to_single l ty evs Hs Ht). apply Forall_forall. intros p Hin.
+    apply in_map_iff in Hin as [x [<- _]]. reflexivity.
+Qed.
+
+Lemma constraint_invoked_exactly_once_lemma sch rkl fuel st t rs st' evs l e :
+  wf_events_b sch rkl = true ->
+  run_tx sch fuel st t = (rs, true, st', evs) ->
+  style_filters (l_style l) = false ->
+  count_ev e (map fst (delivered_to l evs)) =
+  (if str_eqb (ev_store e) (l_store l) then expected_events sch (tx_trace sch fuel st t) e else 0%nat).
+Proof.
+  intros Hwf H Hs. rewrite (constraint_count_lemma l evs e Hs), (events_exactly_once_wf sch rkl Hwf _ _ _ _ _ _ H). reflexivity.
+Qed.
+
+Lemma no_deliveries_for_undone_work_lemma sch fuel st t rs st' evs l :
+  run_tx sch fuel st t = (rs, false, st', evs) -> delivered_to l evs = [] /\ st' = st.
+Proof. intros H. apply run_tx_all_or_nothing_lemma in H as [-> ->]. split; reflexivity. Qed.
